@@ -132,6 +132,49 @@ def handleEnv (xs : List Sexp) : Option String := do
     | _ => none
   pure (s!"ws={w} ; " ++ " ; ".intercalate outs)
 
+def encPy (t : PyTerm) : String := toString t.fn ++ String.join (t.names.map (" " ++ ·))
+
+def encName : Option Name → String
+  | none => "-"
+  | some n => n
+
+/-- the wire form of an expression (inverse of `decodeX`, same text as the harness writes) -/
+partial def encodeX : XExpr → String
+  | .lit s => "(lit" ++ String.join (s.map (fun c => " " ++ toString c)) ++ ")"
+  | .cc lo hi => s!"(cc {lo} {hi})"
+  | .seq xs => "(seq" ++ String.join (xs.map (fun x => " " ++ encodeX x)) ++ ")"
+  | .choice xs => "(choice" ++ String.join (xs.map (fun x => " " ++ encodeX x)) ++ ")"
+  | .star e => s!"(star {encodeX e})"
+  | .opt e => s!"(opt {encodeX e})"
+  | .ref r => s!"(ref {r})"
+  | .pvar x => s!"(pvar {x})"
+  | .py t => s!"(py {encPy t})"
+  | .let_ x e b => s!"(let {x} {encodeX e} {encodeX b})"
+  | .where_ e q => s!"(where {encodeX e} {encodeX q})"
+  | .apply e f => s!"(apply {encodeX e} {encodeX f})"
+  | .applyL f e => s!"(applyl {encodeX f} {encodeX e})"
+  | .rep e t => s!"(rep {encodeX e} {encPy t})"
+  | .call t args => s!"(call {t}" ++ String.join (args.map (fun ka => s!" ({encName ka.1} {encodeX ka.2})")) ++ ")"
+  | .bseq items ctor fields =>
+    s!"(bseq {ctor} (" ++ " ".intercalate fields ++ ")" ++
+      String.join (items.map (fun ka => s!" ({encName ka.1} {encodeX ka.2})")) ++ ")"
+
+/-- `(envsubst (T (p…) body) (arg k e)…)`: the expansion `subst bound body` that
+    `C06_call_means_its_expansion_closed_arguments` speaks about, or `na` when its hypotheses fail -/
+def handleEnvSubst (xs : List Sexp) : Option String := do
+  match xs with
+  | .list [.atom "T", .list ps, body] :: args =>
+    let params ← ps.mapM atom?
+    let body ← decodeX body
+    let args ← args.mapM fun a => match a with
+      | .list [k, e] => do pure ((← optName k), (← decodeX e))
+      | _ => none
+    match bindArgs params args with
+    | none => pure "na"
+    | some bound =>
+      if closedArgs bound && pyAvoids bound body then pure (encodeX (subst bound body)) else pure "na"
+  | _ => none
+
 /-- `(envfv e…)`: the parameters of the helper function of each argument expression -/
 def handleEnvFv (xs : List Sexp) : Option String := do
   let es ← xs.mapM decodeX
